@@ -146,7 +146,7 @@ def run(ctx):
         sp, r = ptf(s)
         ptf_cases.append((sp, r))
     suites.append(("ptf", "(fun sp => match path_to_filesystem (str \"R\") sp with Some f => Some (skipn 1 f) | None => None end)",
-                   ptf_cases, enc_str, enc_opt(enc_str), "eq_os"))
+                   ptf_cases, enc_str, lambda v: "(None : option pystr)" if v is None else "(Some %s)" % enc_str(v), "eq_os"))
     suites.append(("token", "check_token_name", [(t, bool(tok(t))) for t in toks], enc_str, enc_bool, "Bool.eqb"))
     # shlex.quote model vs CPython, and the sh lexer model vs the real /bin/sh on quoted strings
     import shlex
